@@ -13,8 +13,10 @@
    variables: every theorem quantifies over them (contract in Proofs/FlowBackup.v).
 
    modified is the REPAIRED function (fixes/C40-modified-ignores-embedded-backup.diff): the two
-   dicts are compared without their backup entries.  The function as it was before the repair is
-   modified_unrepaired below; it is used only by the theorem that documents the defect.
+   dicts are compared without their backup entries.  copy is the REPAIRED function
+   (fixes/C40-copy-backup-id.diff): the saved state of a copy carries the id of the copy.  The
+   functions as they were before the repairs are modified_unrepaired and copy_unrepaired below;
+   they are used only by the theorems that document the two defects.
 
    Not modelled: the asserts on version and type in Flow.set_state (class constants), the second
    copy of request and response in HTTPFlow.copy (a no-op on the state; the correspondence check
@@ -80,8 +82,18 @@ Section Flow.
     | St _ c b => from_state nid (St nid c b)
     end.
 
-  (* Flow.copy *)
+  (* Flow.copy, repaired (fixes/C40-copy-backup-id.diff): a saved state that was copied along gets
+     the id of the copy *)
   Definition copy (nid : ident) (f : flow) : flow :=
+    let g := serializable_copy nid f in
+    Flow (fid g) (fo g) false
+         (match fbackup g with
+          | Some (St _ c b) => Some (St (fid g) c b)
+          | None => None
+          end).
+
+  (* Flow.copy before that repair: the saved state keeps the id of the original *)
+  Definition copy_unrepaired (nid : ident) (f : flow) : flow :=
     let g := serializable_copy nid f in
     Flow (fid g) (fo g) false (fbackup g).
 
